@@ -324,7 +324,7 @@ def unsupported_expr(rng, kind, g: G):
     if kind == "np.floor":
         return ["call", ["lib", "np", "floor"], [x]]
     if kind == "boolop":
-        return ["ifexp", ["boolop", rng.choice(["and", "or"]), [g.boolean(1), g.boolean(1)]], x, y]
+        return ["ifexp", ["boolop", rng.choice(["and", "or"]), [g.boolean(1) for _ in range(rng.choice([2, 3, 3]))]], x, y]
     if kind == "invert":
         return ["ifexp", ["unary", "Invert", ["bool", True]], x, y]
     if kind == "bitand":
